@@ -6,6 +6,7 @@ import FxpVerif.Props.C15
 import FxpVerif.Props.C19
 import FxpVerif.Props.C18
 import FxpVerif.Props.C14
+import FxpVerif.Props.C20
 /-!
 # Source tie: the definitions generated from `fxpmath/functions.py` are the rules the theorems speak about
 
@@ -171,6 +172,18 @@ theorem lshift_word (f : Fmt) (cs : List Int) (n : Nat) :
     Gen.lshiftWord f.signed f.nword f.nint f.nfrac (maxInt (cs.map bitlen)) n =
       max (f.nword : Int) (maxInt (cs.map bitlen) + lshiftExpand.bsigI f.signed + n) := by
   unfold Gen.lshiftWord lshiftExpand.bsigI; cases f.signed <;> simp
+
+
+/-- the strings the `Config.rounding` setter accepts are exactly the five rounding rules of the model (C20: anything else is rejected). -/
+theorem valid_rounding (s : String) : Gen.valid_rounding s = C20.validRounding s := by
+  unfold Gen.valid_rounding C20.validRounding
+  simp only [List.mem_cons, List.mem_nil_iff, or_false, List.elem_eq_mem, decide_eq_decide]
+  constructor <;> (intro h; rcases h with h | h | h | h | h <;> simp [h])
+
+/-- the strings the `Config.overflow` setter accepts are exactly the two overflow rules of the model. -/
+theorem valid_overflow (s : String) : Gen.valid_overflow s = C20.validOverflow s := by
+  unfold Gen.valid_overflow C20.validOverflow
+  simp only [List.mem_cons, List.mem_nil_iff, or_false, List.elem_eq_mem, decide_eq_decide]
 
 
 /-! ## The property theorems, restated about the generated rules
